@@ -567,6 +567,18 @@ func (f *FuncVC) loopHead(st *State, li *loopInfo) {
 			}
 		}
 	}
+	if sid := f.rangeStringInfo(li); sid != "" {
+		if li.con == nil {
+			li.con = &LoopContract{Ordinal: li.ordinal}
+		}
+		cnt := f.heap(st, "R:cnt", "(Array Int Int)")
+		ln := f.heap(st, "R:slen", "(Array Int Int)")
+		f.assume(st, and(cmp("<=", "0", sel(cnt, sid)), cmp("<=", sel(cnt, sid), sel(ln, sid))))
+		li.autoStr = sid
+		if li.con.Decreases == nil {
+			li.d0 = f.sc.define("dec0", "Int", arith("-", sel(ln, sid), sel(cnt, sid)))
+		}
+	}
 	if li.con != nil {
 		ev := f.invEval(st, li)
 		for _, c := range li.con.Invariants {
@@ -662,6 +674,10 @@ func (f *FuncVC) backEdge(es *edgeState, li *loopInfo) {
 		_, ln, _, _ := f.mapHeaps(st, nil, li.autoMapT)
 		cnt := f.heap(st, "R:cnt", "(Array Int Int)")
 		f.oblige(st, "decreases", fmt.Sprintf("loop%d:<map range>", li.ordinal), and(cmp("<", arith("-", sel(ln, li.autoMap), sel(cnt, li.autoMap)), li.d0), cmp(">=", li.d0, "0"), cmp("<=", sel(cnt, li.autoMap), sel(ln, li.autoMap))))
+	} else if li.autoStr != "" {
+		cnt := f.heap(st, "R:cnt", "(Array Int Int)")
+		ln := f.heap(st, "R:slen", "(Array Int Int)")
+		f.oblige(st, "decreases", fmt.Sprintf("loop%d:<string range>", li.ordinal), and(cmp("<", arith("-", sel(ln, li.autoStr), sel(cnt, li.autoStr)), li.d0), cmp(">=", li.d0, "0"), cmp("<=", sel(cnt, li.autoStr), sel(ln, li.autoStr))))
 	} else if li.autoRI != nil {
 		cur := st.cells[li.autoRI]
 		f.oblige(st, "decreases", fmt.Sprintf("loop%d:<range index>", li.ordinal), and(cmp("<", arith("-", li.autoDec, cur.T), li.d0), cmp(">=", li.d0, "0")))
@@ -716,6 +732,23 @@ func (f *FuncVC) exitAsserts(es *edgeState, li *loopInfo) {
 }
 
 // rangeMapInfo recognises "for k, v := range m" over a map.
+// rangeStringInfo returns the iterator id of a range-over-string loop.
+func (f *FuncVC) rangeStringInfo(li *loopInfo) string {
+	if !strings.HasPrefix(li.header.Comment, "rangeiter.loop") {
+		return ""
+	}
+	for _, ins := range li.header.Instrs {
+		if nx, ok := ins.(*ssa.Next); ok && nx.IsString {
+			if rg, ok := nx.Iter.(*ssa.Range); ok {
+				if v, ok := f.regs[rg]; ok && v.K == KInt && v.Why == "striter" {
+					return v.T
+				}
+			}
+		}
+	}
+	return ""
+}
+
 func (f *FuncVC) rangeMapInfo(li *loopInfo) (string, *types.Map) {
 	if !strings.HasPrefix(li.header.Comment, "rangeiter.loop") {
 		return "", nil
